@@ -20,7 +20,7 @@ out.append("## 12. Independently seeded property-breaking changes (`seeded/`)\n\
            "Produced by sub-agents that saw only the property text and a scratch worktree (never /verif). Each was confirmed "
            "(`tools/seed_eval.sh`: demo passes on the clean tree and fails with the patch, the touched existing tests are "
            "unchanged) and then run against the check (`VERIF_REPO=<worktree> ./check Cxx --tier quick`).\n\n"
-           "Rounds: `Cxx-1..3` round 1, `Cxx-r1..r3` round 2, `Cxx-t1..t3` round 3, `Cxx-u1..u2` round 4, `Cxx-v1..v2` round 5. *first run* = outcome "
+           "Rounds: `Cxx-1..3` round 1, `Cxx-r1..r3` round 2, `Cxx-t1..t3` round 3, `Cxx-u1..u2` round 4, `Cxx-v1..v2` round 5, `Cxx-w1` round 6. *first run* = outcome "
            "of the check as it stood when the change arrived; a miss was turned into a strengthening of the generator / "
            "oracle / model (column *strengthening*; for rounds 1-2 it is written into *needs to manifest*) and re-run "
            "(`tools/seed_reeval.sh`).\n\n"
